@@ -218,7 +218,10 @@ def ptr_compatible(ctype, rty, crate):
     if not c_ptr:
         return True
     cp = ctype.replace('const', '').replace('*', '').replace('struct', '').strip()
-    rp = crate.types[rty['inner']]['s']
+    rinner = crate.types[rty['inner']]
+    rp = rinner['s']
+    if rinner.get('k') in ('ptr', 'ref') and ctype.count('*') < 2:
+        return False
     if cp == 'char':
         return rp in ('i8', 'u8', 'std::ffi::c_char')
     return rp.split('::')[-1] == cp
